@@ -523,6 +523,9 @@ end
 
 def typeInSet (t : AType) (l : List AType) : Bool := l.any (fun x => x.pyEq t)
 
+/-- membership by the dictionary representation (`str(type.to_dict())`): structural equality -/
+def typeInSetExact (t : AType) (l : List AType) : Bool := l.any (fun x => AType.beq x t)
+
 def isNamedOrTuple : AType → Bool
   | .named .. => true
   | .tuple _ => true
@@ -550,7 +553,7 @@ def inferFromReturns (body : List Stmt) : Except PyErr (Option AType) :=
       | .ok l =>
         match exprToType e with
         | .error err => .error err
-        | .ok t => if isNamedOrTuple t && !typeInSet t l then .ok (l ++ [t]) else .ok l
+        | .ok t => if isNamedOrTuple t && !typeInSetExact t l then .ok (l ++ [t]) else .ok l
     let step := fun (acc : Except PyErr (List AType)) (r : Option Expr) =>
       match r with
       | none => acc
@@ -563,7 +566,7 @@ def inferFromReturns (body : List Stmt) : Except PyErr (Option AType) :=
           | .name _ _ true tn tq =>
             (match acc with
              | .error err => .error err
-             | .ok l => let t := AType.named tn tq; if typeInSet t l then .ok l else .ok (l ++ [t]))
+             | .ok l => let t := AType.named tn tq; if typeInSetExact t l then .ok l else .ok (l ++ [t]))
           | e => add acc e
     match rets.foldl step (.ok []) with
     | .error err => .error err
